@@ -1,6 +1,7 @@
 import PyCraft.Model.Frame
 import PyCraft.Model.Handlers
 import PyCraft.Model.Negotiate
+import PyCraft.Generated.C15Thread
 /-!
 Model of ONE WHOLE NETWORKING THREAD on a server stream that may end anywhere, and of the
 `connect()` session built from such threads (`minecraft/networking/connection.py`).
@@ -350,6 +351,14 @@ def reactorHandle {α : Type} (hier : Hier) (eofCls : Nat) (kind : ReactorKind)
     else .retFalse                           -- (falls off the end: None)
   | _ => .retFalse                           -- PacketReactor.handle_exception: return False
 
+/-- The version `handle_failure()` calls `connect()` with, if `handle_exception` gets that far
+(`none`: `connect()` is not called at all). -/
+def fallbackVersion (hier : Hier) (eofCls : Nat) (kind : ReactorKind) (dflt : Nat) (e : Exc) :
+    Option Nat :=
+  match kind with
+  | .playingStatus => if isSub hier e.cls eofCls then some dflt else none
+  | _ => none
+
 /-- How exceptions are handled on this connection object. -/
 structure Handling where
   /-- the exception class hierarchy -/
@@ -502,5 +511,49 @@ def threadLoopNoDecrypt {τ κ : Type} (C : Client τ κ) : Nat → RMode → So
       match (C.react m.kind p).stop with
       | some (d, e) => ⟨if d then [p] else [], e, m, k'⟩
       | none => (threadLoopNoDecrypt C fuel (m.after (C.react m.kind p)) k').cons p
+
+/-! ## vocabulary for the live tables (`Generated/C15Thread.lean`) -/
+
+/-- the reactor classes as numbered in the generated tables -/
+def kindOfCode : Nat → Option ReactorKind
+  | 0 => some .status
+  | 1 => some .playingStatus
+  | 2 => some .login
+  | 3 => some .playing
+  | _ => none
+
+/-- class of the exception the final handler was called with (0: it was not called) -/
+def finalArgCls (o : Outcome) : Nat :=
+  ((o.trace.filterMap fun ev =>
+    match ev with
+    | .final a _ => some a.cls
+    | _ => none).head?).getD 0
+
+/-- What a model `rh` of the reactor's handler predicts for one probe of the generator: the real
+`_handle_exception` on a connection without user handlers and with a recording final handler, the
+exception being a fresh instance of class `cls`, the fallback `connect()` succeeding (`fails = 0`)
+or raising `ConnectionRefusedError`: (swallowed, version `connect()` was called with or 0, class
+the final handler received or 0, class of `connection.exception` or 0). -/
+def modelRow (rh : Hier → Nat → ReactorKind → Except Exc Unit → Exc → RBeh) (kind : ReactorKind)
+    (cls fails : Nat) : Nat × Nat × Nat × Nat :=
+  let fb : Except Exc Unit := if fails = 1 then .error ⟨Gen.c15Refused, 1⟩ else .ok ()
+  let e : Exc := ⟨cls, 0⟩
+  let o := handleException Gen.c15Hier (rh Gen.c15Hier Gen.c15Eof kind fb e) [] (.fn .returns) e
+  (if o.swallowedByReactor then 1 else 0,
+   (fallbackVersion Gen.c15Hier Gen.c15Eof kind Gen.c15Default e).getD 0,
+   finalArgCls o,
+   (o.recorded.map (·.cls)).getD 0)
+
+/-- does the model `rh` predict the live row? -/
+def rowOK (rh : Hier → Nat → ReactorKind → Except Exc Unit → Exc → RBeh)
+    (row : Nat × Nat × Nat × Nat × Nat × Nat × Nat) : Bool :=
+  match kindOfCode row.1 with
+  | none => false
+  | some kind =>
+    modelRow rh kind row.2.1 row.2.2.1 ==
+      (row.2.2.2.1, row.2.2.2.2.1, row.2.2.2.2.2.1, row.2.2.2.2.2.2)
+
+/-- the class `read_packet` raised in probe `code` of the generator (0 if the probe is missing) -/
+def readerCls (code : Nat) : Nat := ((Gen.c15ReaderExc.find? (·.1 = code)).map (·.2)).getD 0
 
 end PyCraft.C15Thread
